@@ -304,6 +304,13 @@ func genLong(r *RNG, maxLen int) []string {
 // breadth-first prefix of 257-bit nodes is long (a^0 + ... + a^(d-1) nodes:
 // 273 for a=16,d=3; 4369 for a=16,d=4).
 func genDenseAlpha(r *RNG, a, d int, dropPermille int) []string {
+	if a < 14 {
+		// a node that loses labels down to 10 ends the breadth-first run of
+		// 257-bit nodes for good: only drop keys when there is slack
+		dropPermille = 0
+	} else if dropPermille > 30 {
+		dropPermille = 30
+	}
 	p := r.Perm(256)[:a]
 	sort.Ints(p)
 	alpha := make([]byte, a)
